@@ -73,17 +73,27 @@ def _mk_ops():
 
     def claim_file(f, b): return f.raw_directives_with_comments.claim_interleaving_comments()
     def unclaim_file(f, b): return f.raw_directives_with_comments.unclaim_interleaving_comments()
+    def _unowned(f, b):
+        cs = [c for c in c14.comment_tokens(f) if not c.claimed]
+        return cs + ([M.BlockComment.from_value('foreign', indent='    ')] if b else [])      # b: one comment that cannot be found is mixed in
+
+    def claim_meta_list(f, b): return _txn(f).raw_meta_with_comments.claim_interleaving_comments(_unowned(f, b))
+    def claim_post_list(f, b): return _txn(f).raw_postings_with_comments.claim_interleaving_comments(_unowned(f, b))
+    def claim_file_list(f, b): return f.raw_directives_with_comments.claim_interleaving_comments(_unowned(f, b))
+
     def ins_post(f, b): return _txn(f).raw_postings_with_comments.insert(0, M.BlockComment.from_value('n1', indent='    '))
     def app_meta(f, b): return _txn(f).raw_meta_with_comments.append(M.BlockComment.from_value('n2', indent='    '))
     return [('claim_meta', False, claim_meta), ('unclaim_meta', False, unclaim_meta), ('claim_post', False, claim_post),
             ('unclaim_post', False, unclaim_post), ('auto', False, auto), ('meta_claim_trailing', False, meta_claim_trailing),
             ('meta_unclaim_trailing', False, meta_unclaim_trailing), ('post_claim_leading', False, post_claim_leading),
             ('post_unclaim_leading', False, post_unclaim_leading), ('claim_file', False, claim_file), ('unclaim_file', False, unclaim_file),
+            ('claim_meta_list', False, claim_meta_list), ('claim_post_list', False, claim_post_list), ('claim_file_list', False, claim_file_list),
             ('ins_post', True, ins_post), ('app_meta', True, app_meta)]
 
 
 OPS = _mk_ops()
-N_CLAIM = 11          # the first 11 are attribution-only calls
+N_CLAIM = 14          # the first 14 are attribution-only calls (the last three take an explicit list of comments, optionally with one that cannot be found)
+FLAGGED = ('meta_claim_trailing', 'post_claim_leading', 'claim_meta_list', 'claim_post_list', 'claim_file_list')
 REFUSED = (ValueError, IndexError, KeyError)
 
 
@@ -97,6 +107,10 @@ def run_history(scaf, acc, steps, flags, facet, twin):
         before_text = text_of(f)
         visible = [(t, t.raw_text) for t in f.token_store if t.raw_text]
         own_before = c14.ownership(f, what + ' before the step') if facet == 'owner' else None
+        if facet == 'refuse':
+            all_before = list(f.token_store)
+            flags_before = [c.claimed for c in c14.comment_tokens(f)]
+            dump_before = [(p_, type(x).__name__, id(x) if isinstance(x, M.RawTokenModel) else None) for p_, x in docenv.walk(f)]
         refused = False
         try:
             fn(f, b)
@@ -107,6 +121,13 @@ def run_history(scaf, acc, steps, flags, facet, twin):
             vis = [(t, t.raw_text) for t in f.token_store if t.raw_text]
             check(len(vis) == len(visible) and all(a is c and x == y for (a, x), (c, y) in zip(vis, visible)),
                   what, 'visible tokens were created, dropped, re-ordered or altered by a call that is not an edit')
+        elif facet == 'refuse':
+            if refused:      # C19: a refused call leaves text, tokens (zero-width ones included), tree and claimed flags exactly as they were
+                check(text_of(f) == before_text, what, 'the refused call changed the printed text', R(text_of(f)))
+                now = list(f.token_store)
+                check(len(now) == len(all_before) and all(a is c for a, c in zip(now, all_before)), what, 'the refused call re-ordered, created or dropped tokens (zero-width ones included)')
+                check([c.claimed for c in c14.comment_tokens(f)] == flags_before, what, 'the refused call changed the claimed flag of a comment')
+                check([(p_, type(x).__name__, id(x) if isinstance(x, M.RawTokenModel) else None) for p_, x in docenv.walk(f)] == dump_before, what, 'the refused call changed the tree')
         elif facet == 'tree':
             docenv.tree_invariant(f, what=what)
         elif facet == 'owner':
@@ -130,7 +151,7 @@ def make_hist(scaf, k, facet, first=None, claims_only=False, twin=False):
         sel = list(first or ()) + [pick(o, 0, nops - 1) for o in (o0, o1, o2, o3, o4)[nfirst:k]]
         steps = [OPS[x] for x in sel]
         # the optional flag only exists for the two claim_leading/trailing calls: case-split it only there
-        flags = [bool(pick(b, 0, 1)) if st[0] in ('meta_claim_trailing', 'post_claim_leading') else False
+        flags = [bool(pick(b, 0, 1)) if st[0] in FLAGGED else False
                  for st, b in zip(steps, (b0, b1, b2, b3, b4))]
         with NoTracing():
             run_history(scaf, acc, steps, flags, facet, twin)
@@ -148,18 +169,19 @@ def _reg(name_fn, tiers, timeout, family, bounds, twin=False, cost=None):
 
 
 Q, T = ('quick', 'thorough'), ('thorough',)
-FACET_PROP = {'text': 'C04', 'tree': 'C05', 'owner': 'C14'}
+FACET_PROP = {'text': 'C04', 'tree': 'C05', 'owner': 'C14', 'refuse': 'C19'}
 for _facet, _prop in FACET_PROP.items():
     for _scaf in SCAFFOLDS:
         _reg(make_hist(_scaf, 2, _facet), {_prop: Q}, 900, 'hist/' + _facet,
-             'scaffold %r, attribution at parse symbolic, every history of 2 steps over 13 calls (11 attribution calls, 2 comment insertions)' % _scaf, cost=60)
-        _reg(make_hist(_scaf, 3, _facet), {_prop: Q if _scaf in ('mp', 'm_only_crlf') else T}, 1500, 'hist/' + _facet,
-             'scaffold %r, every history of 3 steps over 13 calls' % _scaf, cost=700)
+             'scaffold %r, attribution at parse symbolic, every history of 2 steps over 16 calls (14 attribution calls incl. explicit comment lists with an unfindable one mixed in, 2 comment insertions)' % _scaf, cost=60)
+        for _o in range(len(OPS)):       # histories of 3 steps, split by the first call (cells are the unit of parallelism)
+            _reg(make_hist(_scaf, 3, _facet, first=(_o,)), {_prop: Q if (_scaf == 'mp' or (_scaf == 'm_only_crlf' and _o in (1, 4, 11, 15))) else T}, 900, 'hist/' + _facet,
+                 'scaffold %r, every history of 3 steps over 16 calls starting with %s' % (_scaf, OPS[_o][0]), cost=60)
         for _o in range(len(OPS)):
             _reg(make_hist(_scaf, 4, _facet, first=(_o,)), {_prop: T}, 1500, 'hist/' + _facet,
-                 'scaffold %r, every history of 4 steps over 13 calls starting with %s' % (_scaf, OPS[_o][0]), cost=700)
+                 'scaffold %r, every history of 4 steps over 16 calls starting with %s' % (_scaf, OPS[_o][0]), cost=700)
     # chains of 5 attribution-only calls on the transaction with meta, comment and postings (split by the first two calls)
-    for _a in (5, 6, 7, 8, 0, 1, 2, 3):
+    for _a in (5, 6, 7, 8, 0, 1, 2, 3, 11, 12):
         for _b in range(N_CLAIM):
             quick = _facet == 'text' and (_a, _b) in ((5, 6), (7, 8))
             _reg(make_hist('mp', 5, _facet, first=(_a, _b), claims_only=True), {_prop: Q if quick else T}, 1500, 'hist5/' + _facet,
